@@ -303,3 +303,54 @@ Print Assumptions C04_cyclic_table_aborts.
 Theorem C04_cyclic_heap_not_acyclic : ~ heap_acyclic cyclic_heap.
 Proof. exact cyclic_heap_not_acyclic. Qed.
 Print Assumptions C04_cyclic_heap_not_acyclic.
+
+(* ---- what keeps the heap acyclic (C04VmProofs8.v, C04VmProofs9.v) ---- *)
+From Cao Require Import C04VmProofs8 C04VmProofs9 C04VmLink.
+
+(* every instruction except SetProperty (33), AppendTable (40) and the natives (CallNative; CallFunction of a
+   native function value) keeps heap_acyclic *)
+Theorem C04_step_keeps_acyclic : forall F bld P reenter ip0 s ip' s',
+  step F bld P reenter ip0 s = SNext ip' s' ->
+  heap_acyclic (st_heap s) -> heap_closed (st_heap s) ->
+  ~ In (opcode_at P ip0) [4; 33; 40]%N ->
+  (opcode_at P ip0 = 11%N -> forall a h, top1 s = VObj a -> hget (st_heap s) a <> Some (ONative h)) ->
+  heap_acyclic (st_heap s').
+Proof. exact step_keeps_acyclic. Qed.
+Print Assumptions C04_step_keeps_acyclic.
+
+(* SetProperty / AppendTable keep the ranks when the stored key and value are ranked below the instance
+   (vdepth = 1 + rank of a table, 0 of anything else); storing a table into a table that it reaches is how a
+   program builds a cycle (C04_cyclic_table_aborts) *)
+Theorem C04_set_property_ranked : forall F opc ip0 ip s ip' s' rk a,
+  i_33 F opc ip0 ip s = SNext ip' s' -> ranked (st_heap s) rk -> speek s 1 = VObj a ->
+  vdepth (st_heap s) rk (speek s 0) <= rk a -> vdepth (st_heap s) rk (speek s 2) <= rk a ->
+  ranked (st_heap s') rk.
+Proof. exact set_property_ranked. Qed.
+Print Assumptions C04_set_property_ranked.
+
+Theorem C04_append_table_ranked : forall F opc ip0 ip s ip' s' rk a,
+  i_40 F opc ip0 ip s = SNext ip' s' -> ranked (st_heap s) rk -> speek s 0 = VObj a ->
+  vdepth (st_heap s) rk (speek s 1) <= rk a -> ranked (st_heap s') rk.
+Proof. exact append_table_ranked. Qed.
+Print Assumptions C04_append_table_ranked.
+
+(* ---- C10 gives code_ok; Vm::run of a compiled program ---- *)
+Theorem C04_wellformed_code_ok : forall w B,
+  Wellformed.wellformed_gen w B ->
+  exists is, decode (p_bytecode B) = Some is /\ code_ok (C15Link.to_vm B) (wf_start is).
+Proof. exact wellformed_code_ok. Qed.
+Print Assumptions C04_wellformed_code_ok.
+
+Theorem C04_compiled_run_no_abort : forall (M : module) (o : options) (B : compiled),
+  compile M o = COk B -> Wellformed.program_in_range M o = true -> WellformedSide.program_utf8 M o = true ->
+  (N.of_nat (length (p_bytecode B)) < 2147483648)%N -> (N.of_nat (length (Compiler.p_data B)) < 4294967296)%N ->
+  exists is, decode (p_bytecode B) = Some is /\
+    forall F bld budget s,
+      reenter_ok (C15Link.to_vm B) (run_at F bld (C15Link.to_vm B) false (N.of_nat budget) 129) (wf_start is) ->
+      vm_inv0 (C15Link.to_vm B) (wf_start is) s ->
+      (forall s1, push_frame s (mkFrame 0 0 0 None) = Some s1 ->
+         sides_hold F bld (C15Link.to_vm B) (run_at F bld (C15Link.to_vm B) false (N.of_nat budget) 129) 0
+           (set_rem s1 (N.of_nat budget))) ->
+      forall a, fst (run F bld budget (C15Link.to_vm B) s) <> OAbort a.
+Proof. exact compiled_run_no_abort. Qed.
+Print Assumptions C04_compiled_run_no_abort.
